@@ -370,6 +370,17 @@ pub fn frames_for(cookies: &HashMap<crate::model::FlowKey, u32>, thorough: bool)
         v.push(("long-v4-syn".into(), vec![], g.tcp(4294967295, 4294967295, F_SYN, b"")));
         v.push(("long-v4-stun".into(), vec![], g.udp(&stun_magic(&[], &ID12))));
     }
+    // "land" frames: source endpoint == destination endpoint (address and port), and equal ports
+    // with different addresses
+    for v6 in [false, true] {
+        let mut f = flow(v6, 3478, 3478);
+        v.push((format!("equal-ports-stun-{}", v6), vec![], f.udp(&stun_magic(&[], &ID12))));
+        f.cip = f.sip;
+        v.push((format!("land-stun-{}", v6), vec![], f.udp(&stun_magic(&[], &ID12))));
+        v.push((format!("land-udp-garbage-{}", v6), vec![], f.udp(b"zz")));
+        v.push((format!("land-syn-{}", v6), vec![], f.tcp(1, 0, F_SYN, b"")));
+        v.push((format!("land-echo-{}", v6), vec![], f.icmp_echo(1, 1, b"x")));
+    }
     // the L2-L4 pair set (ARP whose sender hardware address differs from the Ethernet source, ND
     // whose link-layer option names another MAC, sibling destinations, replies beyond 1500 bytes)
     for pfr in crate::props::pairs::l2l4_frames() {
